@@ -387,6 +387,36 @@ class Analysis:
             return True
         return dst not in g.reach([src], removed=via, skip_labels=skip_labels, removed_edges=dw_edges)
 
+    def eval_guard(self, test: ast.expr, sub: ast.AST, fi: Optional[FunctionInfo]) -> List[Conj]:
+        """Condition under which the sub-expression `sub` of the test expression `test` is evaluated at all
+        (short-circuit evaluation): in `a and b`, b runs only if a is true; in `a or b`, only if a is false."""
+        def contains(x):
+            return any(y is sub for y in ast.walk(x))
+        if test is sub or not contains(test):
+            return [frozenset()]
+        if isinstance(test, ast.BoolOp):
+            pre: List[List[Conj]] = []
+            for v in test.values:
+                if contains(v):
+                    return _and_all(pre + [self.eval_guard(v, sub, fi)]) if pre else self.eval_guard(v, sub, fi)
+                pre.append(self.dnf(v, isinstance(test.op, ast.And), fi))
+        if isinstance(test, ast.UnaryOp):
+            return self.eval_guard(test.operand, sub, fi)
+        return [frozenset()]
+
+    def edges_not_true(self, g: CFG, fi: FunctionInfo, call: ast.Call) -> List[Tuple[Node, str]]:
+        """Branch edges of the test node containing `call` on which the call did NOT return a true value
+        (it returned false, or was not evaluated because of short-circuiting)."""
+        atom = self.atom(call, fi)[0]
+        out = []
+        for n in g.nodes:
+            if n.kind == "test" and n.ast is not None and any(x is call for x in ast.walk(n.ast)):
+                for lab in ("T", "F"):
+                    d = self.dnf(n.ast, lab == "T", fi, inline=False)
+                    if d and not any((atom, True) in c for c in d):
+                        out.append((n, lab))
+        return out
+
     def edges_implying(self, g: CFG, fi: FunctionInfo, atom: str, pol: bool, inline_preds=False) -> List[Tuple[Node, str]]:
         """Branch edges (test node, 'T'|'F') whose condition implies atom == pol, whatever the spelling
         (`if not x: …` / `if x: … else …` / `x and y`)."""
@@ -621,6 +651,21 @@ class Analysis:
             return _simplify(out)
         if isinstance(e, ast.UnaryOp) and isinstance(e.op, ast.Not):
             return self.dnf(e.operand, not positive, fi, inline, _depth, inline_preds, xstop)
+        # `x is None` where x = (a if c else b):  (c and a is None) or (not c and b is None)
+        if getattr(self, "split_none_tests", False) and isinstance(e, ast.Compare) and len(e.ops) == 1 and isinstance(e.ops[0], (ast.Is, ast.IsNot)) and isinstance(e.comparators[0], ast.Constant) \
+                and e.comparators[0].value is None and isinstance(e.left, ast.Name) and fi is not None and _depth < 6:
+            v = self.single_def_value(fi, e.left.id)
+            if isinstance(v, ast.IfExp):
+                def isnone(x):
+                    c_ = ast.Compare(left=x, ops=[e.ops[0]], comparators=[ast.Constant(value=None)])
+                    return c_
+                alt = ast.BoolOp(op=ast.Or(), values=[ast.BoolOp(op=ast.And(), values=[v.test, isnone(v.body)]),
+                                                      ast.BoolOp(op=ast.And(), values=[ast.UnaryOp(op=ast.Not(), operand=v.test), isnone(v.orelse)])])
+                return self.dnf(alt, positive, fi, inline, _depth + 1, inline_preds, xstop)
+        if isinstance(e, ast.Compare) and len(e.ops) == 1 and isinstance(e.ops[0], (ast.Is, ast.IsNot)) and isinstance(e.comparators[0], ast.Constant) \
+                and e.comparators[0].value is None and isinstance(e.left, ast.Constant):
+            truth = (e.left.value is None) == isinstance(e.ops[0], ast.Is)
+            return [frozenset()] if truth == positive else []
         # isinstance(x, (A, B))  ≡  isinstance(x, A) or isinstance(x, B)
         if isinstance(e, ast.Call) and isinstance(e.func, ast.Name) and e.func.id == "isinstance" and len(e.args) == 2 and isinstance(e.args[1], ast.Tuple) and e.args[1].elts:
             alts = [ast.copy_location(ast.Call(func=e.func, args=[e.args[0], t_], keywords=[]), e) for t_ in e.args[1].elts]
